@@ -185,10 +185,16 @@ func c15Run(c *runner.Ctx) {
 			}
 			log = append(log, fmt.Sprintf("docsMatchingTerms(seg%d)+mutate result", si))
 			c.Inc("ops.docs_matching_terms_mutated", 1)
-		case op < 8: // persist
-			gen.Persist(sg.S)
-			log = append(log, fmt.Sprintf("persist(seg%d)", si))
-			c.Inc("ops.persist", 1)
+		case op < 8: // persist (sometimes to a writer that fails part-way)
+			if r.Intn(3) == 0 && len(snaps[si].bytes) > 0 {
+				sg.S.WriteTo(&failWriter{at: r.Intn(len(snaps[si].bytes))}, nil)
+				log = append(log, fmt.Sprintf("persist-to-failing-writer(seg%d)", si))
+				c.Inc("ops.persist_failing_writer", 1)
+			} else {
+				gen.Persist(sg.S)
+				log = append(log, fmt.Sprintf("persist(seg%d)", si))
+				c.Inc("ops.persist", 1)
+			}
 		default: // full observation (stored fields, doc values, dictionaries)
 			observe.Observe(sg.S, model.All)
 			log = append(log, fmt.Sprintf("observe(seg%d)", si))
